@@ -1,4 +1,14 @@
 import CtrlVerif.Props.C08
+import CtrlVerif.Props.C08GenUfun
+import CtrlVerif.Props.C08GenLoop
+import CtrlVerif.Props.C08GenGrid
+import CtrlVerif.Props.C08GenVector
+import CtrlVerif.Props.C08GenBroadcast
+import CtrlVerif.Props.C08GenLin
+import CtrlVerif.Props.C08GenOpSetup
+import CtrlVerif.Props.C08GenOp
+import CtrlVerif.Props.C08GenOpShort
+import CtrlVerif.Props.C08GenParams
 
 #print axioms CtrlVerif.C08.simulate_length
 #print axioms CtrlVerif.C08.simulate_init
@@ -52,3 +62,56 @@ import CtrlVerif.Props.C08
 #print axioms CtrlVerif.C08.polySys_same
 #print axioms CtrlVerif.C08.ofPolyD_build
 #print axioms CtrlVerif.C08.ofPolyD_nil
+#print axioms CtrlVerif.C08.op_call_frame
+#print axioms CtrlVerif.C08.op_refs_valid
+#print axioms CtrlVerif.C08.op_history_frame
+#print axioms CtrlVerif.C08.op_caller_arrays_unchanged
+#print axioms CtrlVerif.C08.op_results_stable
+#print axioms CtrlVerif.C08.op_results_stable_mid
+#print axioms CtrlVerif.C08.op_general_contents
+#print axioms CtrlVerif.C08Gen.generated_clip_eq
+#print axioms CtrlVerif.C08Gen.generated_ufun_eq
+#print axioms CtrlVerif.C08Gen.generated_ufun_grid
+#print axioms CtrlVerif.C08Gen.generated_discLoop_eq
+#print axioms CtrlVerif.C08Gen.generated_discrete_recursion
+#print axioms CtrlVerif.C08Gen.generated_grid_core
+#print axioms CtrlVerif.C08Gen.generated_discGrid_eq
+#print axioms CtrlVerif.C08Gen.generated_findSize_ok
+#print axioms CtrlVerif.C08Gen.generated_findSize_shape
+#print axioms CtrlVerif.C08Gen.generated_pad_core
+#print axioms CtrlVerif.C08Gen.foldlM_append_flatten
+#print axioms CtrlVerif.C08Gen.generated_processVector_eq
+#print axioms CtrlVerif.C08Gen.generated_processVector_length
+#print axioms CtrlVerif.C08Gen.processInputs_broadcast
+#print axioms CtrlVerif.C08Gen.generated_broadcast_eq
+#print axioms CtrlVerif.C08Gen.generated_linPoint_eq
+#print axioms CtrlVerif.C08Gen.generated_linPoint_operating_point
+#print axioms CtrlVerif.C08Gen.generated_linPoint_default_input
+#print axioms CtrlVerif.C08Gen.generated_linearize_ok
+#print axioms CtrlVerif.C08Gen.generated_linearize_defined
+#print axioms CtrlVerif.C08Gen.generated_linearize_eq
+#print axioms CtrlVerif.C08Gen.generated_linearize_affine
+#print axioms CtrlVerif.C08Gen.generated_linearize_ofSS
+#print axioms CtrlVerif.C08Gen.generated_linArgs_eq
+#print axioms CtrlVerif.C08Gen.vecOfList_ofFn
+#print axioms CtrlVerif.C08Gen.generated_linearizeP_eq
+#print axioms CtrlVerif.C08Gen.generated_opSetup_eq_partial
+#print axioms CtrlVerif.C08Gen.generated_opSetup_empty_outputs
+#print axioms CtrlVerif.C08Gen.generated_op_state
+#print axioms CtrlVerif.C08Gen.generated_op_input
+#print axioms CtrlVerif.C08Gen.generated_rootfun_eq
+#print axioms CtrlVerif.C08Gen.generated_opUnpack_eq
+#print axioms CtrlVerif.C08Gen.generated_opPoint_sound
+#print axioms CtrlVerif.C08Gen.lookup_zip_getElem
+#print axioms CtrlVerif.C08Gen.scatter_finRange
+#print axioms CtrlVerif.C08Gen.scatter_nil
+#print axioms CtrlVerif.C08Gen.opIndexing_short
+#print axioms CtrlVerif.C08Gen.generated_opShort_default
+#print axioms CtrlVerif.C08Gen.generated_opShort_core
+#print axioms CtrlVerif.C08Gen.generated_opShort_eq
+#print axioms CtrlVerif.C08Gen.truthy_update
+#print axioms CtrlVerif.C08Gen.generated_updateLeaf_eq
+#print axioms CtrlVerif.C08Gen.applyLocals_locals
+#print axioms CtrlVerif.C08Gen.generated_updateNode_eq
+#print axioms CtrlVerif.C08Gen.generated_updateNode_update
+#print axioms CtrlVerif.C08Gen.generated_updateLeaf_history
